@@ -39,7 +39,10 @@ template<class V> std::vector<cplx> read(V const& v) { std::vector<cplx> r; for(
 
 template<int D>
 void run_d(Input const& in, Ctx& ctx) {
-	long ext[D]; long n = 1; for(int k = 0; k < D; ++k) { ext[k] = 1 + static_cast<long>(in.head(1 + k) % 5U); n *= ext[k]; }
+	// small extents mostly; now and then one that FFTW does not handle with a single codelet (composite / larger sizes go through multi-step plans)
+	static constexpr long kExtT[16] = {1, 2, 3, 4, 5, 2, 3, 4, 5, 6, 8, 16, 25, 30, 36, 48};
+	long ext[D]; long n = 1;
+	for(int k = 0; k < D; ++k) { ext[k] = kExtT[in.head(1 + k) % 16U]; if(n*ext[k] > 1500) { ext[k] = 1 + static_cast<long>(in.head(1 + k) % 5U); } n *= ext[k]; }
 	bool which[D]; std::array<bool, D> whicha{}; unsigned mask = in.head(5); long npoints = 1; int ntrans = 0;
 	for(int k = 0; k < D; ++k) { which[k] = ((mask >> k) & 1U) != 0; whicha[static_cast<std::size_t>(k)] = which[k]; if(which[k]) { npoints *= ext[k]; ++ntrans; } }
 	int const sign = (in.head(6) & 1U) ? +1 : -1;  // FFTW: forward = -1, backward = +1
@@ -71,6 +74,20 @@ void run_d(Input const& in, Ctx& ctx) {
 			auto got = read(vin);
 			for(long i = 0; i < n; ++i) { VP_CHECK(std::abs(got[static_cast<std::size_t>(i)] - want[static_cast<std::size_t>(i)]) <= tol, "fft/value_inplace", "in-place result element " << i << " is " << got[static_cast<std::size_t>(i)] << ", direct DFT gives " << want[static_cast<std::size_t>(i)]); }
 			guard_check(vin, pin, before, "in-place transform");
+			// the same geometry in the other placement, right afterwards (plans must not be confused between placements)
+			vp::ops::with_operand<D, cplx, true>(shape, kin, [&](auto& vin2) {
+				set_elems(vin2, x);
+				vp::ops::with_operand<D, cplx, true>(shape, kin, [&](auto& vout2) {
+					auto pout2 = vp::ops::last_parent<cplx>();
+					std::vector<cplx> before2(pout2.first, pout2.first + pout2.second);
+					multi::fftw::dft(whicha, std::as_const(vin2), vout2, sgn);
+					auto got2 = read(vout2);
+					for(long i = 0; i < n; ++i) { VP_CHECK(std::abs(got2[static_cast<std::size_t>(i)] - want[static_cast<std::size_t>(i)]) <= tol, "fft/value_after_inplace", "out-of-place transform of the same geometry right after the in-place one: element " << i << " is " << got2[static_cast<std::size_t>(i)] << ", direct DFT gives " << want[static_cast<std::size_t>(i)]); }
+					guard_check(vout2, pout2, before2, "out-of-place transform after the in-place one");
+					auto in2 = read(vin2);
+					for(long i = 0; i < n; ++i) { VP_CHECK(in2[static_cast<std::size_t>(i)] == x[static_cast<std::size_t>(i)], "fft/input_modified", "the (distinct) input of the out-of-place transform after the in-place one was modified at element " << i); }
+				});
+			});
 			return;
 		}
 		vp::ops::with_operand<D, cplx, true>(shape, kout, [&](auto& vout) {
@@ -83,6 +100,16 @@ void run_d(Input const& in, Ctx& ctx) {
 			for(long i = 0; i < n; ++i) { VP_CHECK(std::abs(got[static_cast<std::size_t>(i)] - want[static_cast<std::size_t>(i)]) <= tol, "fft/value", "result element " << i << " is " << got[static_cast<std::size_t>(i)] << ", direct DFT gives " << want[static_cast<std::size_t>(i)]); }
 			guard_check(vout, pout, before, "out-of-place transform");
 			for(long i = 0; i < pin.second; ++i) { VP_CHECK(pin.first[i] == in_before[static_cast<std::size_t>(i)], "fft/input_modified", "the (distinct) input was modified at parent cell " << i); }
+			// the same geometry (the output's layout on both sides) in place, right afterwards
+			vp::ops::with_operand<D, cplx, true>(shape, kout, [&](auto& v3) {
+				auto p3 = vp::ops::last_parent<cplx>();
+				set_elems(v3, x);
+				std::vector<cplx> before3(p3.first, p3.first + p3.second);
+				multi::fftw::dft(whicha, v3, sgn);
+				auto got3 = read(v3);
+				for(long i = 0; i < n; ++i) { VP_CHECK(std::abs(got3[static_cast<std::size_t>(i)] - want[static_cast<std::size_t>(i)]) <= tol, "fft/value_inplace_after", "in-place transform right after an out-of-place one: element " << i << " is " << got3[static_cast<std::size_t>(i)] << ", direct DFT gives " << want[static_cast<std::size_t>(i)]); }
+				guard_check(v3, p3, before3, "in-place transform after the out-of-place one");
+			});
 			// forward followed by backward multiplies every element by the number of transformed points
 			multi::array<cplx, D> back(vin.extensions());
 			multi::fftw::dft(whicha, std::as_const(vout), back, sign < 0 ? multi::fftw::backward : multi::fftw::forward);
